@@ -44,6 +44,17 @@ CHECKS = [
   "note": STD_NOTE + " Partial: polynomial reproduction needs Marsden's identity (not proved; monitored). The solver's output is checked as a "
           "certificate (residual), not recomputed; leverage certificates are exact for all observations in 1-D and for a sample in 2-D/3-D "
           "(all are compared with a NumPy reference)."},
+ {"id": "C06",
+  "text": "Theorems: Epanechnikov / tricube / bisquare kernels are non-negative for t>=0 and vanish for t>=1; the weight is even in x-x0; the "
+          "Gaussian kernel is positive (Reals exp/sqrt/PI); the <=1 and <1 support conventions give the same Epanechnikov weights; the local fit "
+          "is the solution of kernel-weighted normal equations on the centred, bandwidth-scaled design, hence (instances of the C05 lemmas) "
+          "linear in the responses, reproduces every polynomial up to the fitted degree (estimate = intercept = value at the query point), "
+          "ignores zero-weight responses, is unique when the weighted design has full rank, and design and weights are invariant under a common "
+          "shift/rescaling of sampling points, query point and bandwidth. Tie: LocalPolynomial.predict (constructor- and setter-configured) in "
+          "1-D and 2-D for the four kernels, degrees 0..3, five domains: each estimate is verified exactly in Q as the intercept of a "
+          "solution of the model's local normal equations; monitors for linearity, reproduction, locality, invariance, kernel values.",
+  "note": STD_NOTE + " Gaussian weights and 2-D Euclidean norms enter the executable model as checked oracle values; local systems with "
+          "condition number > 1e8 (scaled design) are skipped and counted; the local solution is verified as a certificate."},
  {"id": "C08",
   "text": "Theorems (all grids that are non-decreasing lists of reals, all integrands/datasets of matching length): trapezoid integration equals "
           "the dot product with its own weights, weights >= 0, additive and homogeneous, exact on affine pieces and additive over adjacent "
